@@ -12,6 +12,7 @@ import (
 	"os/exec"
 	"path/filepath"
 	"sort"
+	"strconv"
 	"strings"
 	"sync"
 	"time"
@@ -334,7 +335,7 @@ func checkMain(args []string) int {
 	ev := map[string]any{
 		"property_id": prop,
 		"tier":        tier,
-		"seed":        0,
+		"seed":        seedFromEnv(),
 		"level":       "proof",
 		"coverage": map[string]any{
 			"obligations":              counted,
@@ -545,4 +546,10 @@ func runCorpus(prop, in string) map[string]any {
 	sort.Strings(missed)
 	fmt.Fprintf(os.Stderr, "must-fail corpus: %d of %d detected, %d missed, %d not applicable\n", len(detected), len(patches), len(missed), len(broken))
 	return map[string]any{"total": len(patches), "detected": detected, "missed": missed, "patch_does_not_apply_or_build": broken}
+}
+
+// seedFromEnv: the checks are deterministic (no sampling); the seed is recorded as given
+func seedFromEnv() int {
+	n, _ := strconv.Atoi(os.Getenv("VERIF_SEED"))
+	return n
 }
